@@ -54,9 +54,10 @@ type Event struct {
 
 // PlanStep names a hook event that must happen next: point, and optionally the item.
 type PlanStep struct {
-	Point string `json:"ev"`
-	Item  string `json:"item,omitempty"`
-	Any   bool   `json:"any,omitempty"` // any item
+	Point string  `json:"ev"`
+	Item  string  `json:"item,omitempty"`
+	Any   bool    `json:"any,omitempty"` // any item
+	Gid   *uint64 `json:"gid,omitempty"` // the hook's goroutine id must match too (handlers: channel index)
 }
 
 // WFault: Write call number At (1-based) is refused: "fail" accepts nothing, "short" accepts half; both
